@@ -310,6 +310,19 @@ func genC11(t *rapid.T, d map[string]*dictPair) *c11case {
 		cs.rest = append(cs.rest, fixwire.F(93, "3"), fixwire.F(89, "abc"))
 	}
 	cs.reuse = rapid.IntRange(0, 2).Draw(t, "reused-message-object") == 0
+	// a counterparty may write a tag number with leading zeros ("058=", "0213="): it is still that tag
+	if rapid.IntRange(0, 5).Draw(t, "tag-written-with-leading-zeros") == 0 && len(cs.rest) > 1 {
+		i := rapid.IntRange(1, len(cs.rest)-1).Draw(t, "zeros-at")
+		if cs.hasXML && rapid.Bool().Draw(t, "zeros-on-data-field") {
+			for k, f := range cs.rest {
+				if f.Tag == 213 {
+					i = k
+				}
+			}
+		}
+		cs.rest[i].Zeros = rapid.IntRange(1, 2).Draw(t, "zeros")
+		c11().Class("tag-written-with-leading-zeros")
+	}
 	return cs
 }
 
